@@ -237,7 +237,8 @@ def gen_spec(rng, audit_types=("CARD_COMPARISON", "ONEAUDIT", "POLLING"), n_cont
             ph_pool[0] = new
     amc = max_cards + rng.choice((0, 4, 100)) if rng.random() < 0.3 else None
     sn = {"kind": "sha256", "seed": rng.randrange(10 ** 12)} if rng.random() < 0.6 else {"kind": "explicit", "nums": None}
-    return {"audit_max_cards": amc, "use_style": use_style, "max_cards": max_cards, "contests": contests, "cards": cards, "phantom_pool": ph_pool,
+    return {"phantom_prefix": rng.choice(("phantom-1-", "phantom-1-", "phantom-1-", "ph-1-", "Phantom-2-")),
+            "audit_max_cards": amc, "use_style": use_style, "max_cards": max_cards, "contests": contests, "cards": cards, "phantom_pool": ph_pool,
             "mvrs": mvrs, "sample_nums": sn, "direct_supermajority": rng.random() < 0.5,
             "sn_mode": rng.choice(("list_order", "reverse", "shuffled", "contest_first")), "sn_step": rng.choice((1, 1, 17, 0.5)), **({"sn_base": 2 ** 255 + 12345, "sn_step": 2 ** 128} if rng.random() < 0.2 else {})}
 
@@ -366,7 +367,7 @@ class Sim:
         tp, pool = self.spec["phantom_pool"]
         self.real_list = self.cvr_list   # the caller's own list object (must not be touched by make_phantoms)
         self.cvr_list, self.n_phantoms = CVR.make_phantoms(audit=self.audit, contests=self.contests, cvr_list=self.cvr_list,
-                                                           prefix="phantom-1-", tally_pool=tp, pool=pool)
+                                                           prefix=self.spec.get("phantom_prefix", "phantom-1-"), tally_pool=tp, pool=pool)
         self.phantom_contests = [set(c.votes) for c in self.cvr_list[self.n_real:]]
         return self.cvr_list, self.n_phantoms
 
@@ -548,8 +549,18 @@ class Sim:
         cvr_sample = [self.cvr_list[i] for i in indices]
         mvr_sample = [self.mvr_for(i) for i in indices]
         order = {self.cvr_list[i].id: {"selection_order": k, "serial": i + 1} for k, i in enumerate(indices)}
-        # hand them over in a different order: prep_comparison_sample must restore selection order
-        mvr_sample.reverse()
+        # hand them over in another order: prep_comparison_sample must put BOTH into selection order.  Three ways the lists
+        # reach it in practice: manual records in another order than the CVRs; both in card-identifier order (already
+        # paired, but not in selection order); both scrambled independently
+        mode = sum(indices) % 3 if indices else 0
+        if mode == 0:
+            mvr_sample.reverse()
+        elif mode == 1:
+            cvr_sample.sort(key=lambda c: str(c.id))
+            mvr_sample.sort(key=lambda c: str(c.id))
+        else:
+            cvr_sample.sort(key=lambda c: (len(str(c.id)), str(c.id)[::-1]))
+            mvr_sample.sort(key=lambda c: str(c.id)[::-1])
         CVR.prep_comparison_sample(mvr_sample, cvr_sample, order)
         return mvr_sample, cvr_sample
 
